@@ -860,8 +860,8 @@ def grammar_pass(res, name, items, tier, only=None):
 # conjunction: blocks of two declarations
 
 
-def _block_obs(text):
-    sheet = cssutils.CSSParser().parseString(text)
+def _block_obs(text, validate=True):
+    sheet = cssutils.CSSParser(validate=validate).parseString(text)
     leaves, containers = [], []
 
     def walk(rules, path):
@@ -919,7 +919,7 @@ def conjunction_case(res, case):
         text = 'setProperty x2'
     else:
         text = LAYOUTS[layout](*['%s:%s' % (d[0], d[1]) for d in decls])
-        ok, o = _call(_block_obs, text)
+        ok, o = _call(_block_obs, text, not case.get('validation-off', False))
     res.evaluations += 1
     res.clauses['C13.conjunction'] += 1
     if not ok:
@@ -939,6 +939,8 @@ def conjunction_case(res, case):
         if v != exp:
             # the shape of the block (which declaration is the invalid one) is incidental; a shadowed declaration is not
             kind = 'same-name-twice|' if 'shadowed' in shape else ''
+            if case.get('validation-off'):
+                kind = 'validation-off|' + kind  # (the switch controls the reports, not the verdict)
             res.violation('C13.conjunction', f'{layout}|{cname}|{kind}{fmt(exp)}->{fmt(v)}', case, f'{cname}.valid == {exp} (leaves {leaves})', v,
                           note=f'{shape}: {text}')  # fmt: skip
 
@@ -968,6 +970,8 @@ def conjunction(res, name, verdicts, tier, menu_):
             cases.append({'kind': 'conj', 'layout': 'one-rule', 'decls': ds})
     for c in cases:
         conjunction_case(res, c)
+        if c['layout'] != 'dom':
+            conjunction_case(res, dict(c, **{'validation-off': True}))
     return len(cases)
 
 
@@ -1228,6 +1232,7 @@ def _ffconj(res):
             if a[0] != b[0]:
                 for layout in ('in-@media', 'in-@page', 'page+margin-box', 'in-margin-box', 'media-in-media'):
                     conjunction_case(res, {'kind': 'conj', 'layout': layout, 'decls': [list(a), list(b)]})
+                    conjunction_case(res, {'kind': 'conj', 'layout': layout, 'decls': [list(a), list(b)], 'validation-off': True})
 
 
 def run_shard(shard, tier, seed):
